@@ -20,7 +20,8 @@ Inductive dim := DInt (n : nat) | DSym (s : string) | DUnk.
 Record pgraph := mkPG {
   pg_nodes : list node; pg_outputs : list name;
   pg_shape : name -> option (list dim);      (* declared shape (None: unknown rank) *)
-  pg_scalar : name -> bool }.                 (* _is_scalar_const_value *)
+  pg_scalar : name -> bool;                   (* _is_scalar_const_value *)
+  pg_crank : name -> option nat }.            (* number of dims of the constant payload, if any *)
 Definition pg_graph (g : pgraph) : graph := mkGraph (pg_nodes g) (pg_outputs g).
 
 (* _shapes_compatible *)
@@ -56,7 +57,7 @@ Definition broadcast_dims (shapes : list (list dim)) : option (list dim) :=
   end.
 
 Definition set_shape (g : pgraph) (y : name) (s : list dim) : pgraph :=
-  mkPG (pg_nodes g) (pg_outputs g) (fun x => if Nat.eqb x y then Some s else pg_shape g x) (pg_scalar g).
+  mkPG (pg_nodes g) (pg_outputs g) (fun x => if Nat.eqb x y then Some s else pg_shape g x) (pg_scalar g) (pg_crank g).
 
 (* _elementwise_shape_source *)
 Definition shape_source (g : pgraph) (ins : list name) : option name :=
@@ -100,20 +101,28 @@ Fixpoint walk (ns : list node) (fuel : nat) (v : name) (acc : list node) : optio
            end
   end.
 
-(* side operands of a chain member: the data value, CastLike's type operand (position 1), or a scalar constant *)
-Fixpoint side_ok (g : pgraph) (castlike : bool) (prev : name) (pos : nat) (ins : list name) : bool :=
+(* _value_rank / _rank_at_most *)
+Definition value_rank (g : pgraph) (x : name) : option nat :=
+  match pg_shape g x with Some ds => Some (length ds) | None => pg_crank g x end.
+Definition rank_at_most (g : pgraph) (x ref : name) : bool :=
+  match value_rank g x, value_rank g ref with Some a, Some b => Nat.leb a b | _, _ => false end.
+
+(* side operands of a chain member: the data value, CastLike's type operand (position 1), or a scalar constant whose
+   rank does not exceed the rank of src.  [rk = false] is the decision BEFORE the repair of the rank defect. *)
+Fixpoint side_ok (rk : bool) (g : pgraph) (src : name) (castlike : bool) (prev : name) (pos : nat) (ins : list name) : bool :=
   match ins with
   | [] => true
-  | x :: r => (Nat.eqb x prev || (castlike && Nat.eqb pos 1) || pg_scalar g x) && side_ok g castlike prev (S pos) r
+  | x :: r => (Nat.eqb x prev || (castlike && Nat.eqb pos 1) || (pg_scalar g x && (negb rk || rank_at_most g x src)))
+              && side_ok rk g src castlike prev (S pos) r
   end.
 
-Fixpoint chain_ok (g : pgraph) (prev : name) (chain : list node) : bool :=
+Fixpoint chain_ok (rk : bool) (g : pgraph) (src : name) (prev : name) (chain : list node) : bool :=
   match chain with
   | [] => true
   | n :: r => match n_outs n, n_caps n, n_ins n with
               | [y], [], x :: _ =>
                   Nat.eqb x prev          (* implied by the walk when outputs are single *)
-                  && side_ok g (String.eqb (n_op n) "CastLike") prev 0 (n_ins n) && negb (observed g y) && chain_ok g y r
+                  && side_ok rk g src (String.eqb (n_op n) "CastLike") prev 0 (n_ins n) && negb (observed g y) && chain_ok rk g src y r
               | _, _, _ => false
               end
   end.
@@ -126,7 +135,7 @@ Record action := mkAct { ac_src : name; ac_t1 : name; ac_chain : list node; ac_t
 Definition chain_outs (a : action) : list name := map out_of (ac_chain a).
 Definition dirty (a : action) : list name := ac_t1 a :: chain_outs a.
 
-Definition decide (g : pgraph) (T2 : node) : option action :=
+Definition decide_gen (rk : bool) (g : pgraph) (T2 : node) : option action :=
   if negb (is_reshape T2) then None else
   match n_ins T2, n_outs T2 with
   | v :: _, [b] =>
@@ -137,7 +146,7 @@ Definition decide (g : pgraph) (T2 : node) : option action :=
           | src :: _, [a0] =>
               let a := mkAct src a0 chain b in
               if shapes_compatible (pg_shape g src) (pg_shape g b)
-                 && negb (observed g a0) && chain_ok g a0 chain
+                 && negb (observed g a0) && chain_ok rk g src a0 chain
                  && forallb (fun x => forallb (in_members (chain_outs a ++ [b])) (consumers (pg_nodes g) x)) (dirty a)
                  && nodupb (src :: dirty a ++ [b])      (* acyclicity *)
               then Some a else None
@@ -147,8 +156,10 @@ Definition decide (g : pgraph) (T2 : node) : option action :=
   | _, _ => None
   end.
 
-Fixpoint first_action (g : pgraph) (ns : list node) : option action :=
-  match ns with [] => None | n :: r => match decide g n with Some a => Some a | None => first_action g r end end.
+Definition decide := decide_gen true.
+Fixpoint first_action_gen (rk : bool) (g : pgraph) (ns : list node) : option action :=
+  match ns with [] => None | n :: r => match decide_gen rk g n with Some a => Some a | None => first_action_gen rk g r end end.
+Definition first_action := first_action_gen true.
 
 (* ---------------------------------------------------------------- the rewrite *)
 Definition new_src (a : action) : name := last (chain_outs a) (ac_src a).
@@ -158,34 +169,30 @@ Definition apply_action (g : pgraph) (a : action) : pgraph :=
   let gs := match ac_chain a with
             | [] => g
             | _ => fold_left refresh (map (subst_node (ac_t1 a) (ac_src a)) (ac_chain a))
-                             (mkPG (g_nodes g1) (g_outputs g1) (pg_shape g) (pg_scalar g))
+                             (mkPG (g_nodes g1) (g_outputs g1) (pg_shape g) (pg_scalar g) (pg_crank g))
             end in
   let g2 := replace_all_uses (ac_t2 a) (new_src a) g1 in
   mkPG (remove_first (node_is (ac_t2 a)) (remove_first (node_is (ac_t1 a)) (g_nodes g2))) (g_outputs g2)
-       (pg_shape gs) (pg_scalar g).
+       (pg_shape gs) (pg_scalar g) (pg_crank g).
 
-Definition reshape_pair_step (g : pgraph) : option pgraph := option_map (apply_action g) (first_action g (pg_nodes g)).
-Fixpoint reshape_pair_pass (fuel : nat) (g : pgraph) : pgraph :=
-  match fuel with O => g | S k => match reshape_pair_step g with Some g' => reshape_pair_pass k g' | None => g end end.
-
-(* the check the real pass lacks (defect: a one-element side constant whose rank exceeds the rank of src left-pads the
-   folded result with 1s): every side operand of a non-CastLike chain member is declared with rank <= rank of src *)
-Definition decl_rank_le (g : pgraph) (u src : name) : bool :=
-  match pg_shape g u, pg_shape g src with Some du, Some ds => Nat.leb (length du) (length ds) | _, _ => false end.
-Definition side_ranks_ok (g : pgraph) (a : action) : bool :=
-  forallb (fun n => String.eqb (n_op n) "CastLike" ||
-                    forallb (fun u => existsb (Nat.eqb u) (dirty a ++ [ac_t2 a]) || decl_rank_le g u (ac_src a)) (n_ins n))
-          (ac_chain a).
+Definition reshape_pair_step_gen (rk : bool) (g : pgraph) : option pgraph :=
+  option_map (apply_action g) (first_action_gen rk g (pg_nodes g)).
+Fixpoint reshape_pair_pass_gen (rk : bool) (fuel : nat) (g : pgraph) : pgraph :=
+  match fuel with O => g | S k => match reshape_pair_step_gen rk g with Some g' => reshape_pair_pass_gen rk k g' | None => g end end.
+Definition reshape_pair_step := reshape_pair_step_gen true.
+Definition reshape_pair_pass := reshape_pair_pass_gen true.
+(* the pass as it was before the repair of the rank defect (history; see reshape_pair_prerepair_rank_defect) *)
+Definition reshape_pair_pass_prerepair := reshape_pair_pass_gen false.
 
 (* ================================================================ structure of an accepted action *)
-Fixpoint chain_facts (g : pgraph) (prev : name) (chain : list node) : Prop :=
+Fixpoint chain_facts (g : pgraph) (src : name) (prev : name) (chain : list node) : Prop :=
   match chain with
   | [] => True
   | n :: r => exists y rest, n_outs n = [y] /\ n_caps n = [] /\ n_ins n = prev :: rest /\
-                side_ok g (String.eqb (n_op n) "CastLike") prev 0 (n_ins n) = true /\ observed g y = false /\ chain_facts g y r
+                side_ok true g src (String.eqb (n_op n) "CastLike") prev 0 (n_ins n) = true /\ observed g y = false /\ chain_facts g src y r
   end.
 
-Lemma chain_ok_facts g : forall chain prev, chain_ok g prev chain = true -> chain_facts g prev chain.
+Lemma chain_ok_facts g src : forall chain prev, chain_ok true g src prev chain = true -> chain_facts g src prev chain.
 Proof.
   induction chain as [|n r IH]; simpl; intros prev H; auto.
   destruct (n_outs n) as [|y [|]] eqn:Ho; try discriminate. destruct (n_caps n) eqn:Hc; try discriminate.
@@ -194,9 +201,9 @@ Proof.
   apply Nat.eqb_eq in H1. subst x. apply negb_true_iff in H3. exists y, rest. repeat split; auto.
 Qed.
 
-Lemma chain_facts_in g : forall chain prev n, chain_facts g prev chain -> In n chain ->
+Lemma chain_facts_in g src : forall chain prev n, chain_facts g src prev chain -> In n chain ->
   exists p y rest, In p (prev :: map out_of chain) /\ n_outs n = [y] /\ In y (map out_of chain) /\ n_caps n = [] /\
-    n_ins n = p :: rest /\ side_ok g (String.eqb (n_op n) "CastLike") p 0 (n_ins n) = true.
+    n_ins n = p :: rest /\ side_ok true g src (String.eqb (n_op n) "CastLike") p 0 (n_ins n) = true.
 Proof.
   induction chain as [|m r IH]; simpl; intros prev n H Hin; [contradiction|].
   destruct H as (y & rest & Ho & Hc & Hi & Hs & Hobs & Hr).
@@ -207,7 +214,7 @@ Proof.
     exists p, y', rest'. rewrite Hoy. repeat split; auto. all: try (destruct Hp as [<-|Hp]; [right; now left | right; now right]).
 Qed.
 
-Lemma chain_facts_unobs g : forall chain prev y, chain_facts g prev chain -> In y (map out_of chain) -> observed g y = false.
+Lemma chain_facts_unobs g src : forall chain prev y, chain_facts g src prev chain -> In y (map out_of chain) -> observed g y = false.
 Proof.
   induction chain as [|m r IH]; simpl; intros prev y H Hin; [contradiction|].
   destruct H as (y0 & rest & Ho & _ & _ & _ & Hobs & Hr).
@@ -217,7 +224,7 @@ Qed.
 Lemma last_indep {B} (l : list B) (d d' : B) : l <> [] -> last l d = last l d'.
 Proof. induction l as [|x r IH]; intro H; [congruence|]. destruct r as [|y r']; [reflexivity|]. apply IH. discriminate. Qed.
 
-Lemma chain_facts_last g : forall chain prev, chain_facts g prev chain -> chain <> [] ->
+Lemma chain_facts_last g src : forall chain prev, chain_facts g src prev chain -> chain <> [] ->
   n_outs (last chain (mkNode "" [] [] [] [])) = [last (map out_of chain) prev].
 Proof.
   induction chain as [|m r IH]; intros prev H Hne; [congruence|].
@@ -262,13 +269,13 @@ Record action_facts (g : pgraph) (a : action) (T1 T2 : node) : Prop := {
   af_chain_in : forall n, In n (ac_chain a) -> In n (pg_nodes g) /\ is_allowed n = true;
   af_compat : shapes_compatible (pg_shape g (ac_src a)) (pg_shape g (ac_t2 a)) = true;
   af_unobs : forall x, In x (dirty a) -> observed g x = false;
-  af_chain : chain_facts g (ac_t1 a) (ac_chain a);
+  af_chain : chain_facts g (ac_src a) (ac_t1 a) (ac_chain a);
   af_cons : forall x m, In x (dirty a) -> In m (pg_nodes g) -> In x (n_ins m) -> in_members (chain_outs a ++ [ac_t2 a]) m = true;
   af_nodup : NoDup (ac_src a :: dirty a ++ [ac_t2 a]) }.
 
 Lemma decide_facts g T2 a : In T2 (pg_nodes g) -> decide g T2 = Some a -> exists T1, action_facts g a T1 T2.
 Proof.
-  intros HT2 H. unfold decide in H.
+  intros HT2 H. unfold decide, decide_gen in H.
   destruct (is_reshape T2) eqn:Er2; [|discriminate]. cbn [negb] in H.
   destruct (n_ins T2) as [|v rest2] eqn:Hi2; [discriminate|].
   destruct (n_outs T2) as [|b [|]] eqn:Ho2; try discriminate.
@@ -280,7 +287,7 @@ Proof.
   apply andb_prop in Ec as [Ec H5]. apply andb_prop in Ec as [Ec H4]. apply andb_prop in Ec as [Ec H3].
   apply andb_prop in Ec as [H1 H2]. apply negb_true_iff in H2.
   destruct (walk_spec _ _ _ _ _ _ Ew) as (new & Hnew & HT1 & Hr1 & Hch & Hlink). rewrite app_nil_r in Hnew. subst new.
-  pose proof (chain_ok_facts _ _ _ H3) as Hcf.
+  pose proof (chain_ok_facts _ _ _ _ H3) as Hcf.
   exists T1. constructor; cbn [ac_src ac_t1 ac_chain ac_t2]; auto.
   - unfold is_reshape in Hr1. now apply String.eqb_eq in Hr1.
   - eauto.
@@ -291,7 +298,7 @@ Proof.
     + simpl in Hlink. rewrite Ho1 in Hlink. destruct Hlink as [<-|[]]. reflexivity.
     + rewrite <- Ech in *. assert (Hne : chain <> []) by (rewrite Ech; discriminate).
       rewrite (last_indep _ T1 (mkNode "" [] [] [] [])) in Hlink by exact Hne.
-      rewrite (chain_facts_last g chain a0 Hcf Hne) in Hlink. destruct Hlink as [<-|[]].
+      rewrite (chain_facts_last g src chain a0 Hcf Hne) in Hlink. destruct Hlink as [<-|[]].
       rewrite Ech. change (last (map out_of (c0 :: cr)) a0 = last (a0 :: map out_of (c0 :: cr)) 0).
       change (last (a0 :: map out_of (c0 :: cr)) 0) with (last (map out_of (c0 :: cr)) 0). apply last_indep. discriminate.
   - intros x [<-|Hx]; [exact H2|]. eapply chain_facts_unobs; eauto.
@@ -408,7 +415,7 @@ Section Facts.
   Proof.
     intros Hn Hm. apply in_members_spec in Hm as (y & Ho & Hy). unfold chain_outs in Hy.
     apply in_map_iff in Hy as (c & Hc & Hcin).
-    destruct (chain_facts_in g _ _ c (af_chain _ _ _ _ Haf) Hcin) as (_ & y' & _ & _ & Hoc & _).
+    destruct (chain_facts_in g _ _ _ c (af_chain _ _ _ _ Haf) Hcin) as (_ & y' & _ & _ & Hoc & _).
     assert (y' = y) by (unfold out_of in Hc; rewrite Hoc in Hc; auto). subst y'.
     assert (n = c); [|now subst].
     eapply (defs_unique (pg_nodes g)); eauto.
@@ -441,7 +448,7 @@ Section Facts.
 
   Lemma chain_nonempty_member c : In c (ac_chain a) -> in_members (chain_outs a) c = true /\ keep a c = true.
   Proof.
-    intro Hc. destruct (chain_facts_in g _ _ c (af_chain _ _ _ _ Haf) Hc) as (_ & y & _ & _ & Ho & Hy & _).
+    intro Hc. destruct (chain_facts_in g _ _ _ c (af_chain _ _ _ _ Haf) Hc) as (_ & y & _ & _ & Ho & Hy & _).
     split.
     - unfold in_members. rewrite Ho. apply existsb_exists. exists y. split; auto. apply Nat.eqb_refl.
     - unfold keep, node_is. rewrite Ho.
@@ -533,7 +540,8 @@ Section Sound.
     adm_ssa : ssa V (pg_nodes g) e;
     adm_shape : exists sigma, forall ef x ds v, evalg (pg_nodes g) e = Some ef -> pg_shape g x = Some ds -> ef x = Some v ->
                   Forall2 (dim_ok sigma) ds (shape v);
-    adm_scalar : forall ef x v, evalg (pg_nodes g) e = Some ef -> pg_scalar g x = true -> ef x = Some v -> all1 (shape v) = true }.
+    adm_scalar : forall ef x v, evalg (pg_nodes g) e = Some ef -> pg_scalar g x = true -> ef x = Some v -> all1 (shape v) = true;
+    adm_crank : forall ef x r v, evalg (pg_nodes g) e = Some ef -> pg_crank g x = Some r -> ef x = Some v -> length (shape v) = r }.
 
   Section Action.
     Variables (g : pgraph) (a : action) (T1 T2 : node) (e ef : env V) (xs : V).
@@ -603,7 +611,7 @@ Section Sound.
       rewrite (rho_other a x H1 H2). exists v. split; auto. apply rel_of_teq; auto; [|apply teq_refl].
       apply inD_false. intros [E|Hc]; [now symmetry in E|].
       apply Hnd'. unfold chain_outs in Hc. apply in_map_iff in Hc as (c & Hc & Hcin).
-      destruct (chain_facts_in g _ _ c (af_chain _ _ _ _ Haf) Hcin) as (_ & y & _ & _ & Ho & _).
+      destruct (chain_facts_in g _ _ _ c (af_chain _ _ _ _ Haf) Hcin) as (_ & y & _ & _ & Ho & _).
       unfold defs. apply in_flat_map. exists c. split; [now apply (af_chain_in _ _ _ _ Haf)|].
       unfold out_of in Hc. rewrite Ho in *. subst. now left.
     Qed.
@@ -680,7 +688,7 @@ Section Sound.
           rewrite (node_is_true _ _ (af_T2_outs _ _ _ _ Haf)) in Hk2. discriminate. }
         split; [|split]; auto. apply inD_false. intros [E|Hc]; [now symmetry in E|].
         unfold chain_outs in Hc. apply in_map_iff in Hc as (c & Hc & Hcin).
-        destruct (chain_facts_in g _ _ c (af_chain _ _ _ _ Haf) Hcin) as (_ & y' & _ & _ & Ho & _).
+        destruct (chain_facts_in g _ _ _ c (af_chain _ _ _ _ Haf) Hcin) as (_ & y' & _ & _ & Ho & _).
         assert (y' = y) by (unfold out_of in Hc; rewrite Ho in Hc; auto). subst y'.
         assert (n = c).
         { eapply (defs_unique (pg_nodes g)); eauto; [now apply (af_chain_in _ _ _ _ Haf) | rewrite Ho; now left]. }
@@ -707,9 +715,9 @@ Section Sound.
 
     (* ---- a member of the chain: computes the same flattening in the other layout *)
     Lemma side_operands (E : env V) (r : name -> name) prev x :
-      E (r prev) = Some x -> forall ins pos vs, side_ok g false prev pos ins = true ->
+      E (r prev) = Some x -> forall ins pos vs, side_ok true g (ac_src a) false prev pos ins = true ->
       (forall u w, In u ins -> pg_scalar g u = true -> E (r u) = Some w -> all1 (shape w) = true) ->
-      lookups V E (map r ins) = Some vs -> Forall (fun v => teq v x \/ all1 (shape v) = true) vs.
+      lookups V E (map r ins) = Some vs -> Forall (fun v => all1 (shape v) = true \/ shape v = shape x) vs.
     Proof.
       intros Hp. induction ins as [|u rest IH]; intros pos vs Hs Hsc Hl.
       - simpl in Hl. injection Hl as <-. constructor.
@@ -717,39 +725,52 @@ Section Sound.
         destruct (lookups V E (map r rest)) as [ws|] eqn:El; [|discriminate]. injection Hl as <-.
         cbn [side_ok andb] in Hs. apply andb_prop in Hs as [H1 H2]. constructor.
         + rewrite orb_false_r in H1. apply orb_prop in H1 as [H1|H1].
-          * apply Nat.eqb_eq in H1. subst u. rewrite Hp in Eu. injection Eu as <-. left. apply teq_refl.
-          * right. apply (Hsc u w); auto. now left.
+          * apply Nat.eqb_eq in H1. subst u. rewrite Hp in Eu. injection Eu as <-. now right.
+          * apply andb_prop in H1 as [H1 _]. left. apply (Hsc u w); auto. now left.
         + apply (IH (S pos)); auto. intros u0 w0 Hu0. apply Hsc. now right.
     Qed.
 
-    Lemma rank_ok c u v w : side_ranks_ok g a = true -> In c (ac_chain a) -> String.eqb (n_op c) "CastLike" = false ->
+    Lemma side_rank : forall ins pos prev u, side_ok true g (ac_src a) false prev pos ins = true -> In u ins ->
+      u = prev \/ rank_at_most g u (ac_src a) = true.
+    Proof.
+      induction ins as [|x rest IH]; intros pos prev u Hs Hu; [contradiction|].
+      cbn [side_ok andb] in Hs. apply andb_prop in Hs as [H1 H2]. destruct Hu as [<-|Hu]; [|eapply IH; eauto].
+      rewrite orb_false_r in H1. apply orb_prop in H1 as [H1|H1]; [left; now apply Nat.eqb_eq in H1|].
+      apply andb_prop in H1 as [_ H1]. now right.
+    Qed.
+
+    Lemma value_rank_true x r v : value_rank g x = Some r -> ef x = Some v -> length (shape v) = r.
+    Proof.
+      unfold value_rank. intros Hr Hv. destruct (pg_shape g x) as [ds|] eqn:E.
+      - injection Hr as <-. destruct (adm_shape _ _ Hadm) as [sigma Hsh]. symmetry.
+        exact (Forall2_length_eq _ _ _ (Hsh ef x ds v Hev E Hv)).
+      - exact (adm_crank _ _ Hadm ef x r v Hev Hr Hv).
+    Qed.
+
+    Lemma rank_ok c p u v w : In c (ac_chain a) -> In p (dirty a) ->
+      side_ok true g (ac_src a) false p 0 (n_ins c) = true ->
       In u (n_ins c) -> ef u = Some v -> rel u v w -> length (shape w) <= length S0.
     Proof.
-      intros Hrk Hc Hcl0 Hu Hv Hr. unfold side_ranks_ok in Hrk. rewrite forallb_forall in Hrk. specialize (Hrk c Hc).
-      rewrite Hcl0 in Hrk. cbn [orb] in Hrk. rewrite forallb_forall in Hrk. specialize (Hrk u Hu).
-      apply orb_prop in Hrk as [Hd|Hd].
-      - apply existsb_exists in Hd as (z & Hz & E). apply Nat.eqb_eq in E. subst z.
-        rewrite (rel_shape _ _ _ Hz Hr). auto.
-      - destruct (inD u) eqn:EDu.
-        + apply inD_In in EDu. rewrite (rel_shape u v w (in_or_app _ _ _ (or_introl EDu)) Hr). auto.
-        + pose proof (rel_teq _ _ _ EDu Hr) as [Hs _]. rewrite <- Hs.
-          unfold decl_rank_le in Hd. destruct (pg_shape g u) as [du|] eqn:E1; [|discriminate].
-          destruct (pg_shape g (ac_src a)) as [ds|] eqn:E2; [|discriminate]. apply Nat.leb_le in Hd.
-          destruct (adm_shape _ _ Hadm) as [sigma Hsh].
-          rewrite <- (Forall2_length_eq _ _ _ (Hsh ef u du v Hev E1 Hv)).
-          unfold S0. rewrite <- (Forall2_length_eq _ _ _ (Hsh ef (ac_src a) ds xs Hev E2 Hxs)). exact Hd.
+      intros Hc Hp Hside Hu Hv Hr.
+      destruct (inD u) eqn:EDu.
+      { apply inD_In in EDu. rewrite (rel_shape u v w (in_or_app _ _ _ (or_introl EDu)) Hr). auto. }
+      destruct (side_rank _ _ _ _ Hside Hu) as [->|Hrk]; [apply inD_In in Hp; congruence|].
+      pose proof (rel_teq _ _ _ EDu Hr) as [Hs _]. rewrite <- Hs.
+      unfold rank_at_most in Hrk.
+      destruct (value_rank g u) as [ru|] eqn:E1; [|discriminate]. destruct (value_rank g (ac_src a)) as [rs|] eqn:E2; [|discriminate].
+      apply Nat.leb_le in Hrk. rewrite (value_rank_true _ _ _ E1 Hv). unfold S0. now rewrite (value_rank_true _ _ _ E2 Hxs).
     Qed.
 
     Lemma str_in_app_l s l l' : str_in s l = true -> str_in s (l ++ l') = true.
     Proof. unfold str_in. rewrite existsb_app. intros ->. reflexivity. Qed.
 
-    Lemma chain_step c em em' e1 : side_ranks_ok g a = true -> In c (ac_chain a) ->
+    Lemma chain_step c em em' e1 : In c (ac_chain a) ->
       (forall x v, em x = Some v -> ef x = Some v) ->
       (forall y, In y (n_outs c) -> em y = None) -> NoDup (n_outs c) ->
       Inv em em' -> stepg em c = Some e1 -> exists e1', stepg em' (subst_map (rho a) c) = Some e1' /\ Inv e1 e1'.
     Proof.
-      intros Hrk Hc Hle Hfresh Hndo Hi Hs.
-      destruct (chain_facts_in g _ _ c (af_chain _ _ _ _ Haf) Hc) as (p & y & rest & Hp & Ho & Hy & Hcaps & Hins & Hside).
+      intros Hc Hle Hfresh Hndo Hi Hs.
+      destruct (chain_facts_in g _ _ _ c (af_chain _ _ _ _ Haf) Hc) as (p & y & rest & Hp & Ho & Hy & Hcaps & Hins & Hside).
       assert (HpD : In p (dirty a)) by exact Hp.
       apply (rinv_kept_step V teq sem (rho a) rel em em' c e1 Hi Hs); auto.
       { intros y0 Hy0. rewrite Ho in Hy0. destruct Hy0 as [<-|[]]. now apply (rho_chain_out g a T1 T2 Haf). }
@@ -788,17 +809,17 @@ Section Sound.
         assert (Hcl0 : String.eqb (n_op c) "CastLike" = false).
         { destruct (String.eqb_spec (n_op c) "CastLike") as [E|]; auto. rewrite E in Hop. vm_compute in Hop. discriminate. }
         rewrite Hcl0 in Hside.
-        assert (Hok : operands_ok vs).
-        { rewrite Evs. unfold operands_ok. rewrite <- Evs.
-          apply (side_operands em (fun u => u) p x Ex (n_ins c) 0 vs Hside).
+        assert (Hd : Forall (fun v => all1 (shape v) = true \/ shape v = shape x) vs).
+        { apply (side_operands em (fun u => u) p x Ex (n_ins c) 0 vs Hside).
           - intros u w _ Hsc Eu. exact (adm_scalar _ _ Hadm ef u w Hev Hsc (Hle _ _ Eu)).
           - now rewrite map_id. }
-        assert (Hok' : operands_ok vs').
-        { rewrite Evs'. unfold operands_ok. rewrite <- Evs'.
-          apply (side_operands em' (rho a) p x' Ex' (n_ins c) 0 vs' Hside); auto.
+        assert (Hok : operands_ok vs) by (apply (operands_ok_data x); auto; rewrite Evs; now left).
+        assert (Hd' : Forall (fun v => all1 (shape v) = true \/ shape v = shape x') vs').
+        { apply (side_operands em' (rho a) p x' Ex' (n_ins c) 0 vs' Hside); auto.
           intros u w Hu Hsc Eu. destruct (Hrel_in u Hu) as (v & w0 & Ev & Ew0 & Hr). rewrite Eu in Ew0. injection Ew0 as <-.
           pose proof (adm_scalar _ _ Hadm ef u v Hev Hsc (Hle _ _ Ev)) as H1.
           exact (proj1 (flat_eq_scalar _ _ H1 (rel_flat _ _ _ Hr))). }
+        assert (Hok' : operands_ok vs') by (apply (operands_ok_data x'); auto; rewrite Evs'; now left).
         destruct (Hpw _ _ _ _ Hop Hsem Hok) as (yv & -> & Hyv).
         assert (Hacc' : sem (n_op c) (n_attrs c) vs' <> None).
         { apply (Hacc (n_op c) (n_attrs c) vs vs'); [now apply str_in_app_l | congruence | exact Hse | now right]. }
@@ -808,19 +829,19 @@ Section Sound.
         unfold rel. rewrite HyD. split.
         + eapply flat_eq_trans; [apply teq_flat_eq; exact Hyv|].
           eapply flat_eq_trans; [|apply flat_eq_sym; apply teq_flat_eq; exact Hyv'].
-          apply pwn_flat; auto. rewrite Evs. discriminate.
-        + rewrite (proj1 Hyv'), Evs'. rewrite pwn_shape; [exact Hsx'|]. rewrite <- Evs'.
+          apply pwn_flat; auto.
+        + rewrite (proj1 Hyv'). rewrite (pwn_shape_data (F (n_op c) (n_attrs c)) x' vs'); auto; [rewrite Evs'; now left|].
           apply (lookups_Forall V _ em' (map (rho a) (n_ins c)) vs' Hl').
           intros u' w Hu' Ew. apply in_map_iff in Hu' as (u & <- & Hu).
           destruct (Hrel_in u Hu) as (v & w0 & Ev & Ew0 & Hr). rewrite Ew in Ew0. injection Ew0 as <-.
-          rewrite Hsx'. exact (rank_ok c u v w Hrk Hc Hcl0 Hu (Hle _ _ Ev) Hr).
+          rewrite Hsx'. exact (rank_ok c p u v w Hc HpD Hside Hu (Hle _ _ Ev) Hr).
     Qed.
 
     (* ---- the action as a whole, for this run *)
-    Lemma action_run : side_ranks_ok g a = true ->
+    Lemma action_run :
       refinesg (pg_graph g) (mkGraph (map (subst_map (rho a)) (filter (keep a) (pg_nodes g))) (map (rho a) (pg_outputs g))) e.
     Proof.
-      intro Hrk. pose proof (adm_ssa _ _ Hadm) as Hssa.
+      pose proof (adm_ssa _ _ Hadm) as Hssa.
       apply (sim_refines V teq sem Inv (keep a) (subst_map (rho a)) (pg_nodes g) (pg_outputs g) (map (rho a) (pg_outputs g)) e Hssa inv_init).
       intros ef0 Hev0. rewrite Hev in Hev0. injection Hev0 as <-. split.
       - intros pre n post em em' e1 Hsplit Hpre Hle Hi Hs Hle1.
@@ -842,17 +863,17 @@ Section Sound.
   Lemma first_action_in g : forall ns a, (forall n, In n ns -> In n (pg_nodes g)) -> first_action g ns = Some a ->
     exists T1 T2, action_facts g a T1 T2.
   Proof.
-    induction ns as [|n r IH]; simpl; intros a Hsub H; [discriminate|]. destruct (decide g n) as [b|] eqn:E.
+    unfold first_action. induction ns as [|n r IH]; simpl; intros a Hsub H; [discriminate|].
+    destruct (decide_gen true g n) as [b|] eqn:E.
     - injection H as <-. destruct (decide_facts g n b (Hsub n (or_introl eq_refl)) E) as [T1 HT]. eauto.
     - apply IH; auto.
   Qed.
 
-  (* ONE rewrite of the pass is sound for every admissible annotated graph, PROVIDED no side operand outranks src *)
+  (* ONE rewrite of the pass is sound for every admissible annotated graph *)
   Theorem reshape_pair_action_sound g a T1 T2 e :
-    admissible g e -> action_facts g a T1 T2 -> side_ranks_ok g a = true ->
-    refinesg (pg_graph g) (pg_graph (apply_action g a)) e.
+    admissible g e -> action_facts g a T1 T2 -> refinesg (pg_graph g) (pg_graph (apply_action g a)) e.
   Proof.
-    intros Hadm Haf Hrk o Hrun. pose proof (adm_ssa _ _ Hadm) as Hssa.
+    intros Hadm Haf o Hrun. pose proof (adm_ssa _ _ Hadm) as Hssa.
     rewrite (apply_action_graph g a T1 T2 (proj1 Hssa) Haf).
     assert (Hev : exists ef, evalg (pg_nodes g) e = Some ef).
     { unfold run in Hrun. simpl in Hrun. destruct (evalg (pg_nodes g) e); [eauto|discriminate]. }
@@ -860,39 +881,34 @@ Section Sound.
     destruct (eval_consistent V sem _ _ _ T1 Hssa Hev (af_T1_in _ _ _ _ Haf)) as (vs & oo & Hl & _ & _).
     destruct (af_T1_ins _ _ _ _ Haf) as [r Hins]. unfold n_uses in Hl. rewrite Hins in Hl. simpl in Hl.
     destruct (ef (ac_src a)) as [xs|] eqn:Hxs; [|discriminate].
-    exact (action_run g a T1 T2 e ef xs Hadm Haf Hev Hxs Hrk o Hrun).
+    exact (action_run g a T1 T2 e ef xs Hadm Haf Hev Hxs o Hrun).
   Qed.
 
   Theorem reshape_pair_step_sound g g' e :
-    admissible g e -> (forall a, first_action g (pg_nodes g) = Some a -> side_ranks_ok g a = true) ->
-    reshape_pair_step g = Some g' -> refinesg (pg_graph g) (pg_graph g') e.
+    admissible g e -> reshape_pair_step g = Some g' -> refinesg (pg_graph g) (pg_graph g') e.
   Proof.
-    intros Hadm Hrk Hstep. unfold reshape_pair_step in Hstep.
+    intros Hadm Hstep. unfold reshape_pair_step, reshape_pair_step_gen in Hstep. fold first_action in Hstep.
     destruct (first_action g (pg_nodes g)) as [a|] eqn:Efa; [|discriminate]. injection Hstep as <-.
     destruct (first_action_in g _ a (fun n H => H) Efa) as (T1 & T2 & Haf).
     eapply reshape_pair_action_sound; eauto.
   Qed.
 
-  (* every graph the while-changed loop passes through is admissible and its rewrite passes the rank check *)
+  (* every graph the while-changed loop passes through is admissible (SSA, true annotations: property C08) *)
   Fixpoint admissible_along (fuel : nat) (g : pgraph) (e : env V) : Prop :=
     admissible g e /\
     match fuel with
     | O => True
-    | S k => match first_action g (pg_nodes g) with
-             | Some a => side_ranks_ok g a = true /\ admissible_along k (apply_action g a) e
-             | None => True
-             end
+    | S k => match reshape_pair_step g with Some g' => admissible_along k g' e | None => True end
     end.
 
   Theorem reshape_pair_pass_sound : forall fuel g e, admissible_along fuel g e ->
     refinesg (pg_graph g) (pg_graph (reshape_pair_pass fuel g)) e.
   Proof.
-    induction fuel as [|k IH]; simpl; intros g e [Hadm Hrest].
+    unfold reshape_pair_pass. induction fuel as [|k IH]; simpl; intros g e [Hadm Hrest].
     - apply (refines_refl V teq (@teq_refl A) sem).
-    - unfold reshape_pair_step. destruct (first_action g (pg_nodes g)) as [a|] eqn:Efa; simpl.
-      + destruct Hrest as [Hrk Hrest]. eapply (refines_trans V teq (@teq_trans A) sem).
-        * destruct (first_action_in g _ a (fun n H => H) Efa) as (T1 & T2 & Haf).
-          eapply reshape_pair_action_sound; eauto.
+    - fold reshape_pair_step in *. destruct (reshape_pair_step g) as [g'|] eqn:Es.
+      + eapply (refines_trans V teq (@teq_trans A) sem).
+        * eapply reshape_pair_step_sound; eauto.
         * apply IH. exact Hrest.
       + apply (refines_refl V teq (@teq_refl A) sem).
   Qed.
@@ -906,24 +922,27 @@ Definition ex_scalar (n : name) : bool := match n with 7 => true | 8 => true | _
 (* x:[6] -Reshape-> [2,3] -Max(., c)-> -Reshape-> [6] -Relu-> out *)
 Definition ex_graph (c : name) : pgraph :=
   mkPG [mkNode "Reshape" [] [1; 2] [] [3]; mkNode "Max" [] [3; c] [] [4]; mkNode "Reshape" [] [4; 5] [] [6]; mkNode "Relu" [] [6] [] [9]]
-       [9] ex_shape ex_scalar.
+       [9] ex_shape ex_scalar (fun _ => None).
 
 Example reshape_pair_folded :
   pg_nodes (reshape_pair_pass 5 (ex_graph 7)) = [mkNode "Max" [] [1; 7] [] [4]; mkNode "Relu" [] [4] [] [9]]
-  /\ pg_shape (reshape_pair_pass 5 (ex_graph 7)) 4 = Some [DInt 6]
-  /\ option_map (side_ranks_ok (ex_graph 7)) (first_action (ex_graph 7) (pg_nodes (ex_graph 7))) = Some true.
+  /\ pg_shape (reshape_pair_pass 5 (ex_graph 7)) 4 = Some [DInt 6].
 Proof. vm_compute. auto. Qed.
 
-(* the defect of the real pass, reproduced by the faithful model: with the one-element constant c:[1,1] the pass folds
-   as well, and the value that replaces the [6]-shaped Reshape output now has shape [1,6] (the model's own refreshed
-   annotation says so; onnxruntime agrees: .scratch/c02p/defect_reshape_pair_rank.py).  The rank check fails here. *)
-Example reshape_pair_rank_defect :
-  pg_nodes (reshape_pair_pass 5 (ex_graph 8)) = [mkNode "Max" [] [1; 8] [] [4]; mkNode "Relu" [] [4] [] [9]]
+(* the repaired pass keeps the pair when the one-element constant c:[1,1] outranks src:[6] ... *)
+Example reshape_pair_higher_rank_constant_kept :
+  List.length (pg_nodes (reshape_pair_pass 5 (ex_graph 8))) = 4.
+Proof. vm_compute. reflexivity. Qed.
+
+(* ... HISTORY: before the repair (no rank test) the pass folded here as well, and the value that replaces the
+   [6]-shaped Reshape output then has shape [1,6] (the model's own refreshed annotation says so; onnxruntime agreed:
+   .scratch/c02p/defect_reshape_pair_rank.py) *)
+Example reshape_pair_prerepair_rank_defect :
+  pg_nodes (reshape_pair_pass_prerepair 5 (ex_graph 8)) = [mkNode "Max" [] [1; 8] [] [4]; mkNode "Relu" [] [4] [] [9]]
   /\ pg_shape (ex_graph 8) 6 = Some [DInt 6]
-  /\ pg_shape (reshape_pair_pass 5 (ex_graph 8)) 4 = Some [DInt 1; DInt 6]
-  /\ option_map (side_ranks_ok (ex_graph 8)) (first_action (ex_graph 8) (pg_nodes (ex_graph 8))) = Some false.
+  /\ pg_shape (reshape_pair_pass_prerepair 5 (ex_graph 8)) 4 = Some [DInt 1; DInt 6].
 Proof. vm_compute. auto. Qed.
 
 Example observed_intermediate_kept :
-  List.length (pg_nodes (reshape_pair_pass 5 (mkPG (pg_nodes (ex_graph 7)) [9; 4] ex_shape ex_scalar))) = 4.
+  List.length (pg_nodes (reshape_pair_pass 5 (mkPG (pg_nodes (ex_graph 7)) [9; 4] ex_shape ex_scalar (fun _ => None)))) = 4.
 Proof. vm_compute. reflexivity. Qed.
